@@ -3,80 +3,10 @@
 From Coq Require Import ZArith List Bool Lia ZifyBool.
 From V Require Import Base.Int Base.IO Base.IntLemmas Base.Lift Gen.TzInfo.
 From V Require Import Model.TzParser Model.TzRule Model.TzLookup.
+From V Require Export Proofs.TzCommon.
 Import ListNotations.
 Open Scope Z_scope.
 Ltac Zify.zify_post_hook ::= Z.to_euclidean_division_equations.
-
-(** ** Hoare-style predicates on the trapping monads *)
-Definition post {A} (x : R A) (Q : A -> Prop) : Prop := exists a, x = Val a /\ Q a.
-Definition postr {A} (x : R (res A)) (Q : A -> Prop) : Prop :=
-  exists r, x = Val r /\ match r with Ok a => Q a | Err _ => True end.
-
-Lemma post_val {A} (a : A) (Q : A -> Prop) : Q a -> post (Val a) Q.
-Proof. intros H. exists a. auto. Qed.
-Lemma post_bind {A T} (x : R A) (f : A -> R T) P Q :
-  post x P -> (forall a, P a -> post (f a) Q) -> post (bind x f) Q.
-Proof. intros (a & -> & Ha) H. exact (H a Ha). Qed.
-Lemma postr_ok {A} (a : A) (Q : A -> Prop) : Q a -> postr (ok a) Q.
-Proof. intros H. exists (Ok a). auto. Qed.
-Lemma postr_fail {A} e (Q : A -> Prop) : postr (fail e) Q.
-Proof. exists (Err e). auto. Qed.
-Lemma postr_rbind {A T} (x : R (res A)) (f : A -> R (res T)) P Q :
-  postr x P -> (forall a, P a -> postr (f a) Q) -> postr (rbind x f) Q.
-Proof.
-  intros (r & -> & Hr) H. destruct r as [a|e]; cbn.
-  - exact (H a Hr).
-  - exists (Err e). auto.
-Qed.
-Lemma postr_bind {A T} (x : R A) (f : A -> R (res T)) P Q :
-  post x P -> (forall a, P a -> postr (f a) Q) -> postr (bind x f) Q.
-Proof. intros (a & -> & Ha) H. exact (H a Ha). Qed.
-Lemma postr_weaken {A} (x : R (res A)) (P Q : A -> Prop) :
-  postr x P -> (forall a, P a -> Q a) -> postr x Q.
-Proof. intros (r & -> & Hr) H. exists r. split; [reflexivity|]. destruct r; auto. Qed.
-Lemma post_weaken {A} (x : R A) (P Q : A -> Prop) :
-  post x P -> (forall a, P a -> Q a) -> post x Q.
-Proof. intros (a & -> & Ha) H. exists a. auto. Qed.
-Lemma postr_val_res {A} (r : res A) (Q : A -> Prop) :
-  (forall a, r = Ok a -> Q a) -> postr (Val r) Q.
-Proof. intros H. exists r. split; [reflexivity|]. destruct r; auto. Qed.
-
-Lemma chk_post inr z : inr z = true -> post (chk inr z) (fun v => v = z).
-Proof. intros H. unfold chk. rewrite H. apply post_val. reflexivity. Qed.
-
-(** ** Lists *)
-Lemma zlen_nonneg {A} (l : list A) : 0 <= zlen l.
-Proof. unfold zlen. lia. Qed.
-Lemma zlen_app {A} (a b : list A) : zlen (a ++ b) = zlen a + zlen b.
-Proof. unfold zlen. rewrite app_length. lia. Qed.
-Lemma zlen_cons {A} (x : A) l : zlen (x :: l) = 1 + zlen l.
-Proof. unfold zlen. cbn [List.length]. lia. Qed.
-Lemma zlen_firstn {A} (l : list A) n : 0 <= n <= zlen l -> zlen (firstn (Z.to_nat n) l) = n.
-Proof. unfold zlen. intros H. rewrite firstn_length. lia. Qed.
-
-(** ** Cursor: [read_exact] returns exactly the next [count] bytes and never traps while the
-    bytes consumed so far plus the bytes remaining fit a [usize] *)
-Definition cur_ok (N : Z) (c : cursor) : Prop :=
-  0 <= read_count c /\ read_count c + zlen (remaining c) = N /\ N <= u64_max.
-
-Lemma read_exact_spec N c count : cur_ok N c ->
-  postr (read_exact c count)
-        (fun '(b, c') => cur_ok N c' /\ zlen b = count /\ remaining c = b ++ remaining c').
-Proof.
-  intros (H0 & H1 & H2). unfold read_exact.
-  destruct ((0 <=? count) && (count <=? zlen (remaining c))) eqn:E; [|apply postr_fail].
-  assert (Hc : 0 <= count <= zlen (remaining c)) by lia.
-  eapply postr_bind.
-  - apply chk_post. pose proof (zlen_nonneg (remaining c)).
-    unfold in_usize, in_u64, in_range, u64_max in *. lia.
-  - intros rc ->. apply postr_ok. cbn [remaining read_count].
-    split; [|split].
-    + unfold cur_ok. cbn [remaining read_count]. split; [lia|]. split; [|exact H2].
-      rewrite <- H1. rewrite <- (firstn_skipn (Z.to_nat count) (remaining c)) at 2.
-      rewrite zlen_app, zlen_firstn by lia. lia.
-    + apply zlen_firstn. lia.
-    + symmetry. apply firstn_skipn.
-Qed.
 
 (** ** Acceptance soundness of [TimeZone::new]: an accepted zone has a type, every transition
     points at an existing type, transition times increase strictly *)
@@ -124,14 +54,6 @@ Qed.
 
 (** ** The repaired transition scan of [find_local_time_type_from_local] cannot trap: the only
     trapping operation left in it is the type-table index, which [validate] has checked *)
-Lemma index_post {A} (l : list A) i : 0 <= i < zlen l -> post (index l i) (fun _ => True).
-Proof.
-  intros H. unfold index. destruct (i <? 0) eqn:E; [lia|].
-  assert (Hn : (Z.to_nat i < List.length l)%nat) by (unfold zlen in H; lia).
-  revert Hn. generalize (Z.to_nat i). clear. induction l as [|a l IH]; intros n Hn; cbn in *; [lia|].
-  destruct n; [apply post_val; exact I|]. apply IH. lia.
-Qed.
-
 Lemma local_loop_total types : forall trs prev t,
   Forall (fun tr => 0 <= tr_idx tr < zlen types) trs ->
   exists r, local_loop types trs prev t = Val r.
